@@ -33,7 +33,7 @@ fn inits() -> Vec<(String, InitKind)> {
 }
 
 fn models(tier: Tier) -> Vec<(String, Arc<StreamModel>, Vec<Plan>)> {
-    let or = Oracles { c01: false, c03: true, c04: false, c10: true };
+    let or = Oracles { c01: false, c03: true, c04: false, c10: true, c05: false };
     let mk = |name: &str, n: usize, reduced: bool| {
         Arc::new(StreamModel { name: name.to_string(), n, events: alphabet(n, reduced), inits: inits(), or })
     };
